@@ -39,6 +39,11 @@ def run(R, tier):
                     # the accept matrix (R01.2) decides these arms only inside TryFrom<Token> conversions; the same
                     # macro anywhere else has no such argument
                     in_conv = s.body.name == "try_from" and "convert::TryFrom<" in (s.body.impl_trait or "") and "Token<" in (s.body.impl_trait or "")
+                    if not in_conv and not s.body.impl_trait and not s.body.in_trait:
+                        # a crate-private helper shared by conversions (their common "wrong element type" tail): decided by
+                        # the same accept matrix, which analyses the helper in place, provided nothing else can reach it
+                        convs = tuple(sorted(x.npath for un in P.units for x in un.bodies if x.name == "try_from" and "convert::TryFrom<" in (x.impl_trait or "") and "Token<" in (x.impl_trait or "")))
+                        in_conv = bool(convs) and D.only_reached_from(P, s.body.npath, convs)
                     R.check(in_conv, "R01.1", s.key + tag, "internal-error arm (decided dead by R01.2)", "parser_unreachable!() in %s: outside a TryFrom<Token> conversion nothing shows the arm to be dead (it panics in debug builds and reports -300 in release builds)" % s.body.npath, where=s.line)
                 else:
                     R.ok("R01.1", s.key + tag, d)
@@ -133,8 +138,12 @@ def debug_assert_ok(P, unit, s):
                             ok = True
                         if ce[0] == "unop" and ce[1] == "Not" and ce[2][0] == "call" and ce[2][1].split("::")[-1] == "is_ascii" and v is False:
                             ok = True
-                    if b.npath.endswith("response::push_escaped"):
-                        ok = all(_caller_checks_ascii(P, cb) for cb in _callers(P, b.npath))
+                    if not ok and b.kind in ("Fn", "AssocFn") and not b.impl_trait and not b.in_trait and b.j.get("vis") == "Restricted" \
+                            and any(x[0] == "arg" for x in sym.walk(PN.expand(S, arg))):
+                        # a crate-private helper that pushes (pieces of) its own slice argument - wherever it lives: the
+                        # guarantee is owed by each of its callers
+                        cbs = _callers(P, b.npath)
+                        ok = bool(cbs) and all(_caller_checks_ascii(P, cb, b.npath) for cb in cbs)
                     if arg[0] == "field" and arg[2] == "0" and ("Character" in (b.impl_self or "") or "Expression" in (b.impl_self or "")):
                         ok = True  # wrapper types documented to hold (lexer-validated) ASCII
                     if not ok:
@@ -156,10 +165,10 @@ def _callers(P, npath):
     return out
 
 
-def _caller_checks_ascii(P, b):
+def _caller_checks_ascii(P, b, helper):
     S = sym.Sym(b.mir)
     for c in b.calls():
-        if c.name.endswith("response::push_escaped"):
+        if c.rname == helper or c.name == helper:
             conds = PN.dom_conditions(b.mir, c.bi, S)
             ok = False
             for ce, v, _ in conds:
@@ -211,6 +220,24 @@ def always_advances(u, npath, depth=0):
     return ok
 
 
+def _strict_subslice(mir, local):
+    """every sub-slice projection taken of `local` (through a deref) drops at least one element"""
+    found = False
+    for bi in mir.live_blocks():
+        for st_ in mir.blocks[bi]["stmts"]:
+            if st_["k"] != "assign" or st_["rv"].get("k") not in ("ref", "rawptr"):
+                continue
+            pl = st_["rv"]["place"]
+            if pl.get("l") != local:
+                continue
+            subs = [pr for pr in pl.get("proj", []) if pr.get("k") == "subslice"]
+            for pr in subs:
+                found = True
+                if int(pr["from"]) + (int(pr["to"]) if pr.get("from_end") else 0) < 1:
+                    return False
+    return found
+
+
 def check_loops(R, P, u):
     n_loops = 0
     for b in u.bodies:
@@ -243,6 +270,26 @@ def check_loops(R, P, u):
                 elif always_advances(u, u.qualify(rn, t["callee"].get("resolved_krate") or t["callee"].get("krate"))):
                     # a helper that consumes an element on every path (e.g. the post-unit check split out of the loop)
                     adv.add(bi)
+            # a slice variable replaced by a strictly shorter sub-slice of itself (`while let [first, rest @ ..] = v
+            # { ..; v = rest }`): the block of that assignment advances, its length being the (finite) variant
+            for bi in body:
+                for st_ in mir.blocks[bi]["stmts"]:
+                    if st_["k"] != "assign" or st_["place"].get("proj"):
+                        continue
+                    tgt = st_["place"]["l"]
+                    src = sym.norm(S.rvalue(st_["rv"])) if hasattr(S, "rvalue") else None
+                    if src is None:
+                        continue
+                    # follow single-definition temporaries (`rest`) back to the sub-slice expression
+                    hops = 0
+                    while src[0] == "var" and src[1] != tgt and hops < 4:
+                        ds = [sym.norm(d) for d in S.defs_of(src[1])]
+                        if len(ds) != 1:
+                            break
+                        src = ds[0]
+                        hops += 1
+                    if src[0] == "subslice" and sym.norm(src[1])[0] == "var" and sym.norm(src[1])[1] == tgt and _strict_subslice(mir, tgt):
+                        adv.add(bi)
             # every cycle through the header passes an advancing call
             succ_in = [s for s in mir.succs(h) if s in body]
             inner = cfg.reachable(mir, succ_in, avoid=adv | (set(mir.live_blocks()) - body))
@@ -270,21 +317,28 @@ def check_recursion(R, P, u):
     for comp in comps:
         key = frozenset(comp)
         kind = allowed.get(key)
+        if kind is None and "scpi::tree::Node::exec" in key and all(x == "scpi::tree::Node::exec" or D._inline(x, x) for x in key):
+            kind = "exec"   # exec and helpers that the table analyses in place
         if kind is None:
             R.violation("R01.3", "recursion:%s" % "+".join(sorted(x.split("::")[-1] for x in comp)), "unexpected recursion among %s: no termination argument on file" % sorted(comp))
             continue
         if kind == "exec":
+            # Termination of the recursive descent, decided on the branch table of C02 (R02.6): on every list of abstract
+            # children and in every header context the receiver of each recursive exec call is one of the children of
+            # the node at hand - never the node itself or something else - so the depth is bounded by the finite tree.
             b = names["scpi::tree::Node::exec"]
-            S = sym.Sym(b.mir)
-            ok = True
             n = 0
-            for c in b.calls():
-                if c.name.endswith("Node::exec"):
-                    n += 1
-                    recv = PN.expand(S, sym.norm(S.operand(c.args[0])))
-                    # the receiver is a child taken from self.sub (by iteration or find): the tree is finite
-                    ok = ok and ("sub" in repr(recv)) and ("next" in repr(recv) or "find" in repr(recv))
-            R.check(ok and n >= 3, "R01.3", "recursion:exec", "every recursive exec call descends to a child of self.sub (%d call sites): depth bounded by the finite tree" % n, "exec recurses on something that is not a child of the current node: unbounded recursion possible", where=b.span)
+            bad = []
+            for stream in (["ProgramHeaderSeparator"], ["ProgramMessageUnitSeparator"], ["HeaderQuerySuffix"], [M.END], ["ProgramMnemonic"], ["HeaderMnemonicSeparator", "ProgramMnemonic"]):
+                for kids in D.child_lists(2):
+                    for p in D.exec_children(kids, stream):
+                        for e in p.calls:
+                            if e.name.endswith("Node::exec"):
+                                n += 1
+                                a0 = e.args[0]
+                                if not (isinstance(a0, tuple) and a0[0] == "ref" and str(a0[1]).startswith("child")):
+                                    bad.append("children %s at %s: exec called on %r" % (kids, stream, a0))
+            R.check(not bad and n >= 100, "R01.3", "recursion:exec", "every recursive exec call descends to a child of self.sub (%d recursion events over the branch table): depth bounded by the finite tree" % n, "exec recurses on something that is not a child of the current node: unbounded recursion possible (%s)" % bad[:2], where=b.span)
         else:
             b = names["scpi::parser::parameters::Parameters::next_optional_token"]
             ok = True
